@@ -24,3 +24,9 @@ hdr['checks'] = checks
 hdr['not_applicable'] = na
 open(os.path.join(V, 'MANIFEST.json'), 'w').write(json.dumps(hdr, indent=1) + '\n')
 print('MANIFEST.json: %d checks, %d not claimed' % (len(checks), len(na)))
+# known_findings.json = concatenation of findings.d/*.json (the committed known-findings file read by every check)
+allf = []
+for f in sorted(glob.glob(os.path.join(V, 'findings.d', '*.json'))):
+    allf += json.load(open(f))
+open(os.path.join(V, 'known_findings.json'), 'w').write(json.dumps(allf, indent=1) + '\n')
+print('known_findings.json: %d entries (%d open)' % (len(allf), sum(1 for x in allf if x.get('status') == 'open')))
